@@ -192,6 +192,11 @@ pub fn tokenize_expression(input: &str) -> Result<Vec<Token>, CompilerError> {
                     let value = token_text.parse::<f32>().map_err(|error| {
                         CompilerError::invalid_source(format!("invalid float literal: {error}"))
                     })?;
+                    if !value.is_finite() {
+                        return Err(CompilerError::invalid_source(format!(
+                            "invalid float literal: {token_text} is out of range"
+                        )));
+                    }
                     tokens.push(Token::Float(value));
                 } else {
                     let value = token_text.parse::<i32>().map_err(|error| {
